@@ -188,6 +188,7 @@ func (ex *Exec) runPath(r *Runner, h *Harness, prefix []decision) {
 	ex.notes = map[string]bool{}
 	ex.mapNondet = false
 	ex.hashMemo = nil
+	ex.hashInjective = false
 	ex.cborMemo = nil
 	ex.fs = nil
 	ex.sentinels = map[string]*IfaceVal{}
@@ -909,6 +910,9 @@ func (ex *Exec) realize(cond *Term, m *Model) *Model {
 		allReal := true
 		memo := map[int32]uint64{}
 		for _, e := range ex.hashMemo {
+			if _, conc := ex.concreteBytes(e.data); conc {
+				continue
+			}
 			data := make([]byte, len(e.data))
 			ok := true
 			for i, t := range e.data {
